@@ -12,6 +12,8 @@ pub mod c13;
 pub mod c16;
 pub mod c18;
 pub mod c17;
+pub mod drivers9;
+pub mod c09;
 use crate::Ctx;
 pub fn run(prop: &str, ctx: &mut Ctx) -> bool {
     match prop {
@@ -34,6 +36,7 @@ pub fn run(prop: &str, ctx: &mut Ctx) -> bool {
         "C16" => c16::run(ctx),
         "C18" => c18::run(ctx),
         "C17" => c17::run(ctx),
+        "C09" => c09::run(ctx),
         _ => return false,
     }
     true
